@@ -1,24 +1,33 @@
 #!/bin/bash
-# Regression over the seeded corpus: for every /verif/seeded/<id>, apply patch.diff to /repo, run the quick checks named
-# in meta.json caught_by_checks, expect exit 1 from at least one, undo. Writes /verif/seeded/RESULTS.md.
-cd /verif
+# Regression over the seeded corpus, on scratch copies so that /repo and /verif/evidence stay untouched:
+# a git worktree of /repo (VERIF_REPO) and a copy of /verif (VERIF_DIR). For every seeded/<id>: apply patch.diff,
+# run the quick checks named in meta.json caught_by_checks, expect exit 1 from at least one, undo.
+# Writes /verif/seeded/RESULTS.md. Usage: tools/seedall.sh [id-prefix]
+set -u
+SR=/tmp/seedrepo; SV=/tmp/seedverif
+rm -rf $SV; git -C /repo worktree remove --force $SR 2>/dev/null; rm -rf $SR
+git -C /repo worktree add -q --detach $SR HEAD || exit 3
+mkdir -p $SV && rsync -a --exclude .git --exclude out --exclude evidence /verif/ $SV/ && mkdir -p $SV/evidence $SV/out
+export VERIF_REPO=$SR VERIF_DIR=$SV
 out=/verif/seeded/RESULTS.md
 echo "| seed | property | checks run | detected by (exit 1) | clean tree restored |" > $out
 echo "|---|---|---|---|---|" >> $out
-for d in /verif/seeded/*/; do
+cd $SV
+for d in /verif/seeded/${1:-}*/; do
   id=$(basename $d)
   [ -f $d/meta.json ] || continue
   prop=$(python3 -c "import json;print(json.load(open('$d/meta.json'))['breaks_property'])")
   checks=$(python3 -c "import json;print(' '.join(json.load(open('$d/meta.json'))['caught_by_checks']))")
-  (cd /repo && git apply $d/patch.diff) || { echo "| $id | $prop | - | PATCH DOES NOT APPLY | - |" >> $out; continue; }
+  (cd $SR && git apply $d/patch.diff 2>/dev/null) || { echo "| $id | $prop | - | PATCH DOES NOT APPLY (code since repaired or changed) | - |" >> $out; echo "$id: patch does not apply"; continue; }
   det=""
   for p in $checks; do
     timeout 1800 ./bin/vcheck $p > /tmp/seedall_${id}_$p.log 2>&1; ec=$?
     [ $ec -eq 1 ] && det="$det $p"
     [ $ec -eq 2 ] && det="$det $p(inconclusive)"
   done
-  (cd /repo && git checkout -- .)
-  st=$(cd /repo && git status --short | wc -l)
+  (cd $SR && git checkout -- .)
+  st=$(cd $SR && git status --short | wc -l)
   echo "| $id | $prop | $checks | ${det:-NONE} | $([ $st -eq 0 ] && echo yes || echo NO) |" >> $out
   echo "$id: detected by:${det:- NONE}"
 done
+git -C /repo worktree remove --force $SR; rm -rf $SV /tmp/seedall_*.log
